@@ -144,6 +144,26 @@ def interleave(scripts, rs):
     return order
 
 
+def transformed(a, rng):
+    """A state the caller could bring its own Atoms object into between two
+    calls: rigid rotation + translation, a small rattle, or a reordering."""
+    b = a.copy()
+    r = rng.random()
+    if r < 0.4:
+        b.rotate(float(rng.uniform(0, 360)), rng.normal(size=3), rotate_cell=True)
+        b.positions += rng.uniform(-3, 3, 3)
+        how = "rotate"
+    elif r < 0.75:
+        b.positions += rng.normal(scale=0.03, size=(len(b), 3))
+        how = "rattle"
+    else:
+        perm = rng.permutation(len(b))
+        b.positions = b.positions[perm]
+        b.numbers = b.numbers[perm]
+        how = "reorder"
+    return b, how
+
+
 def _inst_name(policy, client):
     if policy == "shared":
         return "S"
@@ -183,7 +203,12 @@ def gen_sbc_world(prop, root, w, tier):
     env_world = rc.random() < 0.5
     vary_params = rc.random() < 0.6
     maxn = int(rc.choice([20, 40, T["maxn"], T["maxn"]]))
-    spec["config"] = dict(clients=n_clients, policy=policy, faults=fault_kinds, env=env_world, vary_params=vary_params, maxn=maxn)
+    # swarm flavour "overlap-heavy": merging (almost) switched off, structures on which several
+    # regions are found, many schedules -- drives overlap resolution and cleaning
+    overlap_world = rc.random() < 0.25
+    if overlap_world:
+        maxn = T["maxn"] if tier == "quick" else int(rc.choice([70, 120]))
+    spec["config"] = dict(clients=n_clients, policy=policy, faults=fault_kinds, env=env_world, vary_params=vary_params, maxn=maxn, overlap_heavy=overlap_world)
 
     # structures
     n_struct = int(rc.integers(1, 4))
@@ -193,6 +218,8 @@ def gen_sbc_world(prop, root, w, tier):
             want = [None, "crystallite", "defect", "crystallite", "stack2"][int(rw.integers(5))]
         else:
             want = None
+        if overlap_world:
+            want = ["defect", "stack2", "sidebyside", "crystallite"][int(rw.integers(4))]
         a, meta = gens.gen_messy(rw, maxn=maxn, want_kind=want, coincident=(prop == "C01" and rw.random() < 0.06))
         sid = "s%d" % k
         spec["structures"][sid] = atoms_to_spec(a, meta)
@@ -202,6 +229,11 @@ def gen_sbc_world(prop, root, w, tier):
         spec["structures"]["bad"] = atoms_to_spec(a, meta)
 
     def params_for(a):
+        if overlap_world:
+            p = {"merge_threshold": float(rw.choice([1.0, 1.0, 1.0, 0.9]))}
+            if rw.random() < 0.3:
+                p["bond_threshold"] = float(rw.choice([0.4, 0.5, 0.8]))
+            return p
         if not vary_params:
             return {}
         p = gens.gen_sbc_params(rw)
@@ -222,8 +254,20 @@ def gen_sbc_world(prop, root, w, tier):
         script = scripts[c % n_clients]
         client = c % n_clients
         c += 1
-        sid, a = sids[int(rw.integers(len(sids)))]
+        si = int(rw.integers(len(sids)))
+        sid, a = sids[si]
         inst = _inst_name(policy, client)
+        if rw.random() < 0.12 and "coincident" not in (spec["structures"][sid].get("meta") or {}):
+            # the caller modifies its own Atoms object in place and keeps using it
+            b, how = transformed(a, rw)
+            if gens._min_pair_ok(b):
+                nsid = "%s_t%d" % (sid.split("_t")[0], c)
+                meta = dict(spec["structures"][sid].get("meta") or {}, transformed=how)
+                spec["structures"][nsid] = atoms_to_spec(b, meta)
+                script.append({"op": "TRANSFORM", "src": sid, "dst": nsid})
+                sids[si] = (nsid, b)
+                sid, a = nsid, b
+                budget -= 1
         if env_world and re_.random() < 0.35:
             script.append({"op": "ENV", "kind": ENV_KINDS[int(re_.integers(len(ENV_KINDS)))], "x": int(re_.integers(0, 10**6))})
             budget -= 1
@@ -363,7 +407,17 @@ def gen_clf_world(prop, root, w, tier):
         if "bad" in spec["structures"] and rw.random() < 0.15:
             script.append({"op": "CLASSIFY_BAD", "s": "bad", "inst": inst})
             continue
-        op = {"op": "CLASSIFY", "s": sids[int(rw.integers(len(sids)))], "inst": inst}
+        si = int(rw.integers(len(sids)))
+        if rw.random() < 0.12:
+            a_cur = gens.spec_to_atoms_cached(spec["structures"][sids[si]])
+            b, how = transformed(a_cur, rw)
+            if gens._min_pair_ok(b):
+                nsid = "%s_t%d" % (sids[si].split("_t")[0], t)
+                meta = dict(spec["structures"][sids[si]].get("meta") or {}, transformed=how)
+                spec["structures"][nsid] = atoms_to_spec(b, meta)
+                script.append({"op": "TRANSFORM", "src": sids[si], "dst": nsid})
+                sids[si] = nsid
+        op = {"op": "CLASSIFY", "s": sids[si], "inst": inst}
         if fault_kinds and rf.random() < 0.33:
             op["fault"] = draw_fault(rf, fault_kinds)
         if tier == "thorough" or rc.random() < 0.1:
@@ -486,6 +540,22 @@ def gen_crystal_world(prop, root, w, tier):
             units.append(unit)
     # the op schedule: a seeded order of the units
     rs.shuffle(units)
+    # sometimes the second presentation is not a new object: the caller rotates /
+    # reorders / rattles its own Atoms object in place and passes it again
+    inplace = {}
+    for sid, a, recipe, expect, usid in structs:
+        if sid.endswith("p") and rc.random() < 0.5:
+            inplace[sid] = sid[:-1]
+    if inplace:
+        for dst, src in inplace.items():
+            first = [u for u in units if u[0]["s"] == src]
+            second = [u for u in units if u[0]["s"] == dst]
+            rest = [u for u in units if u[0]["s"] not in (src, dst)]
+            units = first + [[{"op": "TRANSFORM", "src": src, "dst": dst}]] + second
+            # other samples are interleaved around them
+            for u in rest:
+                units.insert(rs.randrange(len(units) + 1), u)
+        spec["config"]["inplace_transform"] = True
     ops = []
     for unit in units:
         for op in unit:
